@@ -252,10 +252,10 @@ Proof.
   intros m e2 C. unfold flow_conn_error. destruct (c_ferr m); [exact C|]. eapply clean_same6; [apply same6_set_flow|exact C].
 Qed.
 
-(* every operation except the connection error itself (tag 21) *)
-Lemma clean_cm_op : forall m idx tag a, tag <> 21 -> Clean m -> Clean (fst (cm_op m idx tag a)).
+(* every operation except the connection error itself (tag 21, and tag 24 = a poll racing it) *)
+Lemma clean_cm_op : forall m idx tag a, tag <> 21 -> tag <> 24 -> Clean m -> Clean (fst (cm_op m idx tag a)).
 Proof.
-  intros m idx tag a NE C. unfold cm_op.
+  intros m idx tag a NE NE2 C. unfold cm_op.
   repeat (match goal with
           | |- context[match ?x with _ => _ end] =>
             match type of x with
@@ -263,7 +263,7 @@ Proof.
             | positive => destruct x
             | list Z => destruct x
             end
-          end); cbn [fst]; try exact C; try (exfalso; apply NE; reflexivity);
+          end); cbn [fst]; try exact C; try (exfalso; apply NE; reflexivity); try (exfalso; apply NE2; reflexivity);
     try (apply clean_handshake; exact C);
     try (apply clean_start_task; exact C);
     try (apply clean_dgram_send; exact C);
@@ -302,9 +302,9 @@ Proof.
   eapply clean_same6; [apply same6_set_exec|exact Q].
 Qed.
 
-Lemma clean_cm_step : forall m idx tag a, tag <> 21 -> Clean m -> Clean (fst (cm_step m idx tag a)).
+Lemma clean_cm_step : forall m idx tag a, tag <> 21 -> tag <> 24 -> Clean m -> Clean (fst (cm_step m idx tag a)).
 Proof.
-  intros m idx tag a NE C. unfold cm_step. pose proof (clean_cm_op m idx tag a NE C) as Q.
+  intros m idx tag a NE NE2 C. unfold cm_step. pose proof (clean_cm_op m idx tag a NE NE2 C) as Q.
   destruct (cm_op m idx tag a) as [m1 o]. cbn [fst] in Q.
   assert (X : forall o', Clean (fst (let '(m2, w) := settle m1 idx in (m2, o' ++ w)))).
   { intros o'. pose proof (clean_settle m1 idx Q) as S. destruct (settle m1 idx) as [m2 w]. exact S. }
@@ -314,9 +314,9 @@ Proof.
   destruct o1; [exact Q|apply X].
 Qed.
 
-Lemma clean_cm_exec : forall ops m idx, Forall (fun o => fst o <> 21) ops -> Clean m -> Clean (cm_exec m idx ops).
+Lemma clean_cm_exec : forall ops m idx, Forall (fun o => fst o <> 21 /\ fst o <> 24) ops -> Clean m -> Clean (cm_exec m idx ops).
 Proof.
-  induction ops as [|[t a] r IH]; intros m idx H C; [exact C|]. inversion H; subst. cbn [cm_exec].
+  induction ops as [|[t a] r IH]; intros m idx H C; [exact C|]. inversion H as [|x l [H1 H2] H3]; subst. cbn [cm_exec].
   apply IH; [assumption|]. apply clean_cm_step; assumption.
 Qed.
 
@@ -326,7 +326,7 @@ Qed.
    woken, no slot keeps a sleeper, and at every later point the connection is poisoned with e, so
    every later application operation is not Pending and reports e (or its half's terminal result) *)
 Lemma p_c17_release_all : forall cfg m0 before e after,
-  cm_init true cfg = Some m0 -> Forall (fun o => fst o <> 21) before ->
+  cm_init true cfg = Some m0 -> Forall (fun o => fst o <> 21 /\ fst o <> 24) before ->
   let m := cm_exec m0 0 before in
   c_fix23 m = true ->
   (forall t, In t (registered m) -> In t (c_woken (conn_error e m))) /\
